@@ -8,6 +8,49 @@ NOT_YET = {}
 TB = ("Trusted: Lean kernel (axioms propext, Classical.choice, Quot.sound only; audited by #print axioms on every run); "
       "the hand-written model's correspondence to the code (differential, bounded by the generators whose distribution is in the evidence); ")
 CLAIMS = {
+ "C03": dict(
+  category="proof",
+  text=("Lean 4 theorems (family built by a sub-agent under the common brief, merged and re-checked here): for every well-formed status, decoding the SPEC "
+        "encoding returns exactly that status for Bedrock (unconnected pong), legacy 1.6 / 1.4 / beta 1.8 (kick packets, UTF-16BE), and Java (VarInt-framed JSON) "
+        "for every behaviour of the JSON crate that maps the text to a document representing the status (member order, unknown members, null vs absent do not "
+        "matter); auto-detection for all 32 subsets of variants a server speaks and every way an unspoken variant fails: the result is the first spoken variant in "
+        "the order Java, Bedrock, 1.6, 1.4, b1.8, labelled with it, AutoQuery iff none, and the sockets opened are the prefix of [tcp, udp, tcp, tcp, tcp] up to it. "
+        "Tie + oracle: SPEC-generated statuses (a Lean mirror of serde_json parses/prints the JSON in the driver), mutations, and the opened-socket sequence on the "
+        "real code."),
+  note=TB + "serde_json is a parameter of the model (theorem C03_java quantifies over its behaviour); the driver's JSON mirror is exercised by the differential only.",
+  technique="Lean 4 proof (decode∘encode per format; case analysis over the 32 variant subsets) + SPEC-driven differential"),
+ "C06": dict(
+  category="proof",
+  text=("Lean 4 theorems (family built by a sub-agent, merged and re-checked here): the Unreal 2 string codec for every well-formed string in both encodings "
+        "(Latin-1 and UCS-2, every length 0-127, any trailing bytes): result = the characters sent minus colour escapes, control characters and trailing NULs, "
+        "cursor exactly past the string; server info, rules (every value kept under its key, any cut of the list into datagrams), mutators, players (bot iff "
+        "ping = 0); and the whole query on the SPEC script equals the expected response for all 9 toggle pairs, each section valid / silent / malformed, any "
+        "retry count and any number of datagrams per list. Tie + oracle: every length byte 0-255 in both encodings with and without escapes (quick tier), "
+        "SPEC-generated exchanges and mutations on the real code."),
+  note=TB + "encoding_rs (windows-1252, UTF-16LE without BOM handling) mirrored by Gd.cp1252Decode / unitsOf; the stray-0x01 ambiguity of UCS-2 strings is excluded by the SPEC's domain.",
+  technique="Lean 4 proof (string codec ∀ lengths/encodings; list induction over datagrams) + exhaustive length-byte sweep and SPEC differential"),
+ "C19": dict(
+  category="other",
+  text=("PARTIAL by nature. Proved in Lean 4 for EVERY JSON value (mutual induction over values, arrays and objects): the XML converter only emits element "
+        "names that are XML names (a key that is not one becomes <entry key=…>), its tags are properly nested (stack discipline, nothing left open), the escaped "
+        "form of every Unicode scalar contains no '<', no raw control character (only TAB/LF in element text) and no '\"' in attribute values; and main's "
+        "control flow exits non-zero with a message and without a document on every failure, 0 with a document only on complete success. EXERCISED, not proved: "
+        "the real binary (rebuilt every run) against loopback servers, 2 modes x 6 formats: JSON and BSON (independent walker) compared with the library's own "
+        "response, XML compared byte for byte with the Lean model's rendering of the same value (and parsed by expat where XML 1.0/1.1 agree), invalid invocations "
+        "of each kind. The serialisers (serde_json, quick-xml, bson, base64, hex), clap and the process itself are outside any model."),
+  note=TB + "Known finding: u64 > i64::MAX is not representable in BSON (clean error now). Games of other protocol families are added as they land.",
+  technique="Lean 4 proof of the converter's well-formedness invariants and exit logic + byte-exact differential against the real binary (partial)"),
+ "C12": dict(
+  category="other",
+  text=("PARTIAL by nature. Proved in Lean 4 on the model (for every server behaviour): at most 3·(retries+1)+1 blocking steps of a Valve query can run "
+        "into their timeout (timed-out receives, failed sends, failed socket creation) — a counting logic over the transport log; against a silent server a "
+        "request fails with the receive-class error after exactly retries+1 attempts of one send + one timed-out receive; a received datagram is delivered "
+        "unmodified up to the requested size and a stream whole; sent bytes are handed over unmodified; default timeouts are finite. MEASURED on real "
+        "loopback sockets (IPv4 and IPv6), not proved: that the OS honours the timeouts — wall clock of queries against servers that fall silent at every "
+        "point of the exchange vs (model's count of timed-out steps) x timeout + slack; byte-exact round trips for payloads 0..65507 (UDP) / 100 000 (TCP); "
+        "refused connections. The runtime behaviour a model cannot exhibit (kernel timers, scheduling) is exactly the measured part."),
+  note=TB + "OS socket timeouts, scheduling and the kernel's IPv4/IPv6 stacks are outside any model; TCP and HTTP (ureq agent) paths are added with the Minecraft / Eco families.",
+  technique="Lean 4 proof of the blocking-step bound and transport fidelity on the model + wall-clock measurement on real loopback sockets (partial)"),
  "C05": dict(
   category="proof",
   text=("Lean 4 theorems (family built by a sub-agent under the common brief, merged and re-checked here): for every well-formed Quake 1/2/3 status reply "
